@@ -7,7 +7,7 @@ recognisers were written against switches the correspondence run to its deep set
 From the runtime: the code points for which str.isspace() holds (re's \\s, str.strip), the ranges of re's \\w
 (str.isalnum() or '_'), the zeros of the decimal decades (re's \\d, int()), the cp1252 decoding table.
 Fail closed: anything not understood raises."""
-import os, re, importlib, codecs, unicodedata
+import os, re, importlib, codecs, unicodedata, inspect, ast, textwrap, hashlib, functools, json
 from . import common as C
 
 # the patterns the hand-written recognisers of Model/Header.v transcribe
@@ -35,6 +35,71 @@ PINNED_XML = r"""(<\?xml\s+
         (standalone=(?P<standalonequote>[\"'])(?P<standalone>[\w]+)(?P=standalonequote))?\s*
         \?>)\s*"""
 CODEC_IDS = {"iso8859-1": 0, "cp1252": 1, "utf-8": 2}
+# normalised-AST hashes (docstrings and comments dropped) of every function Model/Header.v transcribes by hand.  A changed hash
+# makes `header_source_is_pinned = false` in Gen/HeaderGen.v, which breaks the obligation Props/*/source_is_pinned.v: the model is
+# then no longer tied to the source (reported as such even when the rewrite is harmless; the search still looks for a failing input).
+SOURCE_PINS = {
+    "OFXHeaderBase.parse": "eef6dab1ad29", "OFXHeaderV1.__init__": "7b4e52b3ee9e", "OFXHeaderV1.__str__": "0a44b560134b",
+    "OFXHeaderV1.codec": "a3576a0230ef", "OFXHeaderV2.__init__": "61ec438ca00c", "OFXHeaderV2.__str__": "472bcc817f94",
+    "parse_header": "97a24e0ea98d", "make_header": "2302adeaaf18",
+    "Types.Element.__set__": "a5e4c1b82b8c", "Types.Element.__get__": "7dbb84c6a0f9", "Types.Element.enforce_required": "5f6cb55094a3",
+    "Types.OneOf.convert": "da93f0dd8a0d", "Types.OneOf._convert_default": "6b8c18bc12ee", "Types.OneOf._convert_str": "94ebab42900f",
+    "Types.OneOf._convert_none": "c0635597f8af", "Types.Integer.enforce_length": "6a7edd3bdfe4", "Types.Integer.convert": "834ea3359fb8",
+    "Types.Integer._convert_int": "1b147f25ea76", "Types.Integer.convert_str": "8420725ad59f", "Types.Integer._convert_none": "c0635597f8af",
+    "Types.String.convert": "1e75d2b01137", "Types.String.enforce_length": "6235435979bc", "Types.String._convert_str": "948651ab8682",
+    "Types.String._convert_none": "c0635597f8af",
+}
+
+
+def _unwrap(f):
+    if isinstance(f, functools.singledispatchmethod):
+        f = f.func
+    if isinstance(f, (classmethod, staticmethod)):
+        f = f.__func__
+    if isinstance(f, property):
+        f = f.fget
+    return getattr(f, "__func__", f)
+
+
+def ast_hash(f):
+    src = textwrap.dedent(inspect.getsource(_unwrap(f)))
+    t = ast.parse(src)
+    for n in ast.walk(t):
+        if isinstance(n, ast.FunctionDef) and n.body and isinstance(n.body[0], ast.Expr) \
+                and isinstance(getattr(n.body[0], "value", None), ast.Constant) and isinstance(n.body[0].value.value, str):
+            n.body = n.body[1:] or [ast.Pass()]
+    return hashlib.sha1(ast.dump(t).encode()).hexdigest()[:12]
+
+
+def source_pins(H, T):
+    """-> (hashes, problems): which transcribed functions differ from the source the model was written against."""
+    items = {}
+    for cls, names in ((H.OFXHeaderBase, ["parse"]), (H.OFXHeaderV1, ["__init__", "__str__", "codec"]), (H.OFXHeaderV2, ["__init__", "__str__"])):
+        for n in names:
+            items["%s.%s" % (cls.__name__, n)] = cls.__dict__.get(n)
+    items["parse_header"] = getattr(H, "parse_header", None)
+    items["make_header"] = getattr(H, "make_header", None)
+    for cls, names in ((T.Element, ["__set__", "__get__", "enforce_required"]), (T.OneOf, ["convert", "_convert_default", "_convert_str", "_convert_none"]),
+                       (T.Integer, ["enforce_length", "convert", "_convert_int", "convert_str", "_convert_none"]),
+                       (T.String, ["convert", "enforce_length", "_convert_str", "_convert_none"])):
+        for n in names:
+            items["Types.%s.%s" % (cls.__name__, n)] = cls.__dict__.get(n)
+    hashes, problems = {}, []
+    for k, f in items.items():
+        try:
+            hashes[k] = ast_hash(f)
+        except Exception as e:
+            hashes[k] = None
+            problems.append("%s: cannot hash (%r)" % (k, e))
+            continue
+        if hashes[k] != SOURCE_PINS.get(k):
+            problems.append("%s changed (hash %s, pinned %s)" % (k, hashes[k], SOURCE_PINS.get(k)))
+    # methods added to the header classes (an override the model knows nothing about)
+    for cls, known in ((H.OFXHeaderBase, {"parse", "__init__"}), (H.OFXHeaderV1, {"__init__", "__str__", "codec"}), (H.OFXHeaderV2, {"__init__", "__str__"})):
+        for n, v in cls.__dict__.items():
+            if (callable(v) or isinstance(v, (property, classmethod, staticmethod))) and n not in known and not isinstance(v, (T.Element, re.Pattern)):
+                problems.append("%s.%s: method not modelled" % (cls.__name__, n))
+    return hashes, problems
 
 
 def _norm(ws):
@@ -184,6 +249,7 @@ def read_header_module():
         same = _norm(rx.pattern) == _norm(pinned) and (rx.flags & ~re.UNICODE) == flags
         pats[key] = (rx.pattern, same)
     d["patterns"] = pats
+    d["source_hashes"], d["source_problems"] = source_pins(H, T)
     d["module"] = H
     return d
 
@@ -223,6 +289,9 @@ def gen_header():
         o.append("(* watched constant: the pattern of the live module, and whether it is the one the recogniser transcribes *)")
         o.append("Definition %s_regex_pattern : string := %s%%string." % (key, cstring(pat)))
         o.append("Definition %s_regex_is_pinned : bool := %s." % (key, C.cbool(same)))
+    o.append("(* the hand-transcribed functions of header.py / Types.py are the ones Model/Header.v was written against (normalised-AST hashes) *)")
+    o.append("Definition header_source_is_pinned : bool := %s." % C.cbool(not d["source_problems"]))
+    o.append("(* source problems: %s *)" % json.dumps(d["source_problems"]).replace("*)", "* )").replace("(*", "( *").replace('"', "'"))
     o.append("(* code points with str.isspace() (= re \\s) *)")
     o.append("Definition space_table : list N := %s." % C.clist([C.cN(c) for c in space]))
     o.append("(* inclusive ranges of str.isalnum() or '_' (= re \\w) *)")
